@@ -18,7 +18,11 @@ def c07_python_values_heterogeneous_np_array(w):
     k = w['klass']
     return (w['what'] == 'element_changed' and k.get('python_values_route') is True
             and 'str' not in (k.get('supplied_kind'), k.get('got_kind'))
-            and k.get('supplied_kind') != k.get('got_kind'))
+            and k.get('supplied_kind') != k.get('got_kind')
+            # a Python int beyond 2**53 next to float / complex values is what prepare_iter_for_array does guard (object dtype):
+            # losing it is not this finding
+            # (Python ints alone that fit no common integer dtype, e.g. 2**64-1 beside -1, do fall to float64: that is this finding)
+            and not (k.get('supplied_big_int') is True and k.get('got_kind') in ('float', 'complex') and k.get('float_partner') is True))
 
 
 @predicate
